@@ -243,3 +243,112 @@ def write_at(obj, path):
     except Exception:  # noqa: BLE001
         return False
     return True
+
+
+# --------------------------------------------------------------------------------------------
+# value domains per property type (used to populate instances: C12, C05)
+def domain(prop, depth=2):
+    """Candidate values for a declared property, typical value first; [] if the harness has no value for this type."""
+    import enum as _enum
+    from sdc11073.xml_types import dataconverters as dc
+    from sdc11073.xml_types import isoduration
+    from sdc11073.xml_types import xml_structure as xs
+    conv = getattr(prop, '_converter', None)
+    cname = type(prop).__name__
+    if isinstance(conv, dc.EnumConverter):
+        members = list(conv._klass)
+        return members[:6]
+    if cname in ('NodeEnumQNameProperty',):
+        enum_cls = getattr(prop, 'enum_cls', None)
+        return list(enum_cls)[:4] if enum_cls is not None else []
+    if isinstance(prop, xs._AttributeListBase):
+        if cname == 'DecimalListAttributeProperty':
+            return [[Decimal('1.5'), Decimal('2')], []]
+        return [['a', 'b'], ['a'], []]
+    if cname in ('HandleAttributeProperty', 'HandleRefAttributeProperty', 'LocalizedTextRefAttributeProperty'):
+        return ['h.1', 'x']
+    if cname == 'QNameAttributeProperty':
+        return [etree.QName('urn:verif', 'q1')]
+    if cname in ('TimestampAttributeProperty', 'CurrentTimestampAttributeProperty'):
+        return [1.5, 1700000000.123, 0.0]
+    if cname in ('DecimalAttributeProperty', 'QualityIndicatorAttributeProperty', 'NodeDecimalProperty'):
+        if cname == 'QualityIndicatorAttributeProperty':
+            return [Decimal('0.5'), Decimal('1')]
+        return [Decimal('1.5'), Decimal('0.0000001'), Decimal('-123456789012.345678'), Decimal('0')]
+    if cname in ('DurationAttributeProperty', 'NodeDurationProperty'):
+        return [2.0, 0.001, 3661.5]
+    if cname in ('IntegerAttributeProperty', 'NodeIntProperty'):
+        return [3, 0, -7]
+    if cname in ('UnsignedIntAttributeProperty', 'VersionCounterAttributeProperty', 'ReferencedVersionAttributeProperty'):
+        return [3, 0, 4294967295]
+    if cname == 'BooleanAttributeProperty':
+        return [True, False]
+    if isinstance(prop, xs.StringAttributeProperty):
+        return ['x', 'a<&"\' ä€', 'two words']
+    if cname in ('NodeStringProperty', 'AnyUriTextElement'):
+        return ['text', 'a<&>" ä€', 'urn:x:y']
+    if cname == 'NodeTextQNameProperty':
+        return [etree.QName('urn:verif', 'q1')]
+    if cname == 'NodeTextQNameListProperty':
+        return [[etree.QName('urn:verif', 'q1'), etree.QName('urn:verif2', 'q2')], []]
+    if cname == 'NodeTextListProperty':
+        return [['w1', 'w2'], ['w1']]
+    if cname == 'DateOfBirthProperty':
+        return [isoduration.XsdDateInformation(2000, 1, 2), isoduration.XsdDateInformation(1999)]
+    if cname in ('SubElementTextListProperty', 'SubElementStringListProperty', 'SubElementHandleRefListProperty'):
+        elem = getattr(conv, '_element_converter', None)
+        klass = getattr(elem, '_klass', (str,))
+        k = klass[0] if isinstance(klass, tuple) else klass
+        if k is int:
+            return [[1, 2], [3]]
+        if isinstance(k, type) and issubclass(k, _enum.Enum):
+            return [[list(k)[0]], list(k)[:2]]
+        return [['a', 'b'], ['a']]
+    if cname in ('SubElementProperty', 'ContainerProperty', 'SubElementWithSubElementListProperty'):
+        if depth <= 0:
+            return []
+        vc = getattr(prop, 'value_class', None)
+        inst = new(vc) if vc is not None else None
+        if inst is None:
+            return []
+        populate(inst, depth - 1)
+        return [inst]
+    if cname in ('SubElementListProperty', 'ContainerListProperty'):
+        if depth <= 0:
+            return []
+        vc = getattr(prop, 'value_class', None)
+        a, b = (new(vc), new(vc)) if vc is not None else (None, None)
+        if a is None:
+            return []
+        populate(a, depth - 1)
+        populate(b, depth - 1, variant=1)
+        return [[a], [a, b]]
+    return []
+
+
+def populate(obj, depth=2, variant=0, only_absent=True):
+    """Give every declared property a value from its domain (best effort); returns names that were set."""
+    done = []
+    for name, prop in obj.sorted_container_properties():
+        try:
+            cur = prop.get_actual_value(obj)
+        except Exception:  # noqa: BLE001
+            cur = None
+        if only_absent and cur not in (None, []) and not is_struct(cur):
+            continue
+        if is_struct(cur):
+            populate(cur, depth - 1, variant, only_absent)
+            continue
+        try:
+            dom = domain(prop, depth)
+        except Exception:  # noqa: BLE001
+            dom = []
+        if not dom:
+            continue
+        val = dom[variant % len(dom)]
+        try:
+            setattr(obj, name, val)
+            done.append(name)
+        except Exception:  # noqa: BLE001
+            continue
+    return done
